@@ -474,7 +474,6 @@ class Mask:
     def dense(self, env, dtype):
         torch, _ = _imp()
         a = self.x.dense(env, dtype)
-        v = torch.stack([a[tuple(r)] for r in self.rows])
-        return v[0] if len(self.rows) == 1 else v
+        return torch.stack([a[tuple(r)] for r in self.rows])          # dense indexing with a list of index rows: one entry per row
     def desc(self): return {"mask": self.x.desc(), "rows": len(self.rows)}
     def to_json(self): return {"mask": self.x.to_json(), "rows": self.rows}
